@@ -8,13 +8,15 @@ import BytomModel.Model.TxPool
 namespace BytomModel.Ties.C22
 open BytomModel.Gen.LoopVarAddr
 
-/-- the module is compiled with per-LOOP range variables (go < 1.22) -/
+/-- the module is still compiled with per-LOOP range variables (go < 1.22), so a stored `&v` of a
+    range variable WOULD alias -/
 theorem go_directive_tie : goMajor = 1 ∧ goMinor < 22 := by decide
 
-/-- the only range-variable address that is STORED is `&hash` in `checkOrphanUtxos` (the alias the
-    model mirrors); `ExpireOrphan` passes `&hash` to a call that does not keep it -/
+/-- … and since ec6e367b no address of a range variable is stored anywhere in txpool.go (the model's
+    `requireParents = missing` depends on this); `ExpireOrphan` passes `&hash` to a call that does
+    not keep it -/
 theorem range_var_addr_tie :
-    rangeVarAddrs.filter (fun f => f.2.2 == "stored") = [("checkOrphanUtxos", "hash", "stored")] ∧
-    rangeVarAddrs.map (fun f => f.1) = ["ExpireOrphan", "checkOrphanUtxos", "checkOrphanUtxos"] := by decide
+    rangeVarAddrs.filter (fun f => f.2.2 == "stored") = [] ∧
+    rangeVarAddrs = [("ExpireOrphan", "hash", "call-argument")] := by decide
 
 end BytomModel.Ties.C22
